@@ -1,15 +1,98 @@
 (** C09 -- The parser accepts exactly the grammar and builds the tree it prescribes.
-    This file holds only the pinned statements; proofs live in Proofs/C09. *)
+    This file holds only the pinned statements; proofs live in Proofs/C09.
+    Model: Parse/Automaton.v (src/parse.rs).  Specification: Parse/Grammar.v (the grammar relation)
+    and Parse/RefParser.v (recursive descent).  [tok_ok] is what the lexer guarantees about a token
+    (identifiers and literals carry their text, a hex literal starts with 0x). *)
 From RS Require Import Base.Bytes Base.Outcome Lex.Tokens Lex.Literals Interp.Val Interp.Ast.
 From RS Require Import Parse.Verdict Parse.Automaton Parse.Grammar Parse.RefParser.
+From RS Require Import Proofs.C09.Invariant Proofs.C09.Split Proofs.C09.RefSound Proofs.C09.RefComplete
+  Proofs.C09.SimTop Proofs.C09.Viable.
 Open Scope N_scope.
 
-(** non-vacuity: a concrete sentence is accepted by both parsers with the same tree *)
+(** (a) for every token sequence and every way of cutting it into lines (get_results between the
+    lines, as the CLI does), no feed ends in Panic or OutOfFuel: no pop meets an empty stack or a
+    node of the wrong kind and the Goto chain is shorter than the fuel 2*|stack|+8 *)
+Theorem C09_parse_never_stuck : forall lines : list (list token),
+  Forall (fun t => tok_ok t = true) (concat lines) ->
+  match run_lines lines with VPanic _ => False | _ => True end.
+Proof. exact parse_never_stuck. Qed.
+
+(** the same for the plain fold of feed (the interface the whole-pipeline model composes): the
+    result is a parser state or the parse error, nothing else *)
+Theorem C09_feed_never_stuck : forall ts : list token,
+  Forall (fun t => tok_ok t = true) ts ->
+  match feed_all parser_init ts with Ok _ => True | Err e => e = EParse | Panic _ | OutOfFuel => False end.
+Proof.
+  intros ts H. pose proof (feed_never_stuck ts H) as F.
+  destruct (feed_all parser_init ts); cbn in F; auto.
+Qed.
+
+(** (d) the verdict -- accept with these statements / reject at this token / unfinished -- depends
+    only on the token sequence, not on how it is cut into lines *)
+Theorem C09_feed_split_irrelevant : forall lines : list (list token),
+  run_lines lines = run_tokens (concat lines).
+Proof. exact feed_split_irrelevant. Qed.
+
+(** (b) the reference parser accepts exactly the sentences of the grammar, with the tree the
+    grammar assigns (the grammar does not speak about locations) *)
+Theorem C09_refparser_sound_complete : forall ts ss',
+  sentence ts ss' <-> exists ss, rd_parse ts = VAccept ss /\ map erase_stmt ss = ss'.
+Proof. exact rd_accepts_iff. Qed.
+
+(** (c) on every token list the automaton and the reference parser agree: both accept, with the
+    same statements including every source location; or both reject, at the same token index;
+    or both find the program unfinished.  (Feeding ts followed by EOF is the instance ts ++ [eof_token].) *)
+Theorem C09_automaton_eq_refparser : forall ts : list token,
+  Forall (fun t => tok_ok t = true) ts -> run_tokens ts = rd_parse ts.
+Proof. exact automaton_eq_refparser. Qed.
+
+(** hence the automaton accepts exactly the sentences of the grammar and builds their trees *)
+Theorem C09_automaton_accepts_grammar : forall ts ss',
+  Forall (fun t => tok_ok t = true) ts ->
+  (sentence ts ss' <-> exists ss, run_tokens ts = VAccept ss /\ map erase_stmt ss = ss').
+Proof. intros ts ss' H. rewrite (automaton_eq_refparser ts H). apply rd_accepts_iff. Qed.
+
+(** (b, second half) the index at which a token list is rejected is the length of its longest viable
+    prefix: the tokens before it can be continued to a sentence, the tokens up to and including it
+    cannot -- by any continuation made of well-formed tokens (everything a lexer can produce) *)
+Theorem C09_refparser_error_index : forall ts i,
+  Forall (fun t => tok_ok t = true) ts ->
+  (rd_parse ts = VReject i <->
+   (i < length ts)%nat
+   /\ (exists rest ss, Forall (fun t => tok_ok t = true) rest /\ sentence (firstn i ts ++ rest) ss)
+   /\ ~ (exists rest ss, Forall (fun t => tok_ok t = true) rest /\ sentence (firstn (S i) ts ++ rest) ss)).
+Proof. exact reject_index_iff. Qed.
+
+(** ... and so is the index at which the automaton raises its parse error *)
+Theorem C09_automaton_error_index : forall ts i,
+  Forall (fun t => tok_ok t = true) ts ->
+  (run_tokens ts = VReject i <->
+   (i < length ts)%nat
+   /\ (exists rest ss, Forall (fun t => tok_ok t = true) rest /\ sentence (firstn i ts ++ rest) ss)
+   /\ ~ (exists rest ss, Forall (fun t => tok_ok t = true) rest /\ sentence (firstn (S i) ts ++ rest) ss)).
+Proof. intros ts i H. rewrite (automaton_eq_refparser ts H). apply reject_index_iff, H. Qed.
+
+(** an unfinished program can always be finished; it is not itself a sentence *)
+Theorem C09_unfinished_is_viable : forall ts,
+  Forall (fun t => tok_ok t = true) ts -> run_tokens ts = VMore ->
+  viable_prefix ts /\ ~ (exists ss, sentence ts ss).
+Proof. intros ts H R. rewrite (automaton_eq_refparser ts H) in R. apply more_viable; assumption. Qed.
+
+(** not proved: the same non-continuability over continuations that contain malformed tokens (an
+    identifier token without text, which the grammar relation does not exclude and no lexer produces) *)
+Definition C09_error_index_unrestricted_full : Prop := forall ts i,
+  Forall (fun t => tok_ok t = true) ts -> rd_parse ts = VReject i -> ~ viable_prefix (firstn (S i) ts).
+
+(** non-vacuity: a concrete sentence is accepted by both parsers with the same tree, and a
+    non-sentence (name: directly before ')') is rejected at the ')' *)
 Example C09_nonvacuous :
   let tk k v c := {| tk_type := k; tk_loc := (1, c); tk_val := v |} in
   let id s c := tk TIdent (Some (bytes_of_string s)) c in
   let ts := [id "f" 1; tk TLParen None 2; id "x" 3; tk TColon None 4;
              tk TIntLit (Some (bytes_of_string "1")) 5; tk TRParen None 6; tk TSemiColon None 7; eof_token]%string in
+  let bad := [id "f" 1; tk TLParen None 2; id "x" 3; tk TColon None 4; tk TRParen None 5]%string in
   run_tokens ts = VAccept [SExpr (ECall (1, 1) [] ["f"%string] [(Some "x"%string, ELit (1, 5) (VU64 1))])]
-  /\ rd_parse ts = run_tokens ts.
-Proof. split; vm_compute; reflexivity. Qed.
+  /\ rd_parse ts = run_tokens ts
+  /\ Forall (fun t => tok_ok t = true) ts
+  /\ run_tokens bad = VReject 4.
+Proof. repeat split; try (vm_compute; reflexivity). repeat constructor. Qed.
